@@ -17,6 +17,7 @@ ASSUMPTIONS = ["labels are single characters when words are passed as Python str
                "deepcopy = identity of the pure model; 'original unchanged' is an observation of the real object, not a theorem"]
 
 FUEL = 4000
+MULT_SECONDS = 5      # the generated automata need <= 300 pops of the queue loop: milliseconds
 
 
 # ------------------------------------------------------------------ automata
@@ -153,10 +154,12 @@ def run_query(A, q):
         if k == "enum_words":
             return {"ok": [[list(w), e] for w, e in A.enumerate_words(q["n"], start_vertex=q.get("v"), with_states=True)]}
         if k == "multiple":
-            return {"ok": U.views(A.automaton_multiple(q["k"]))}
+            with U.time_limit(MULT_SECONDS):
+                return {"ok": U.views(A.automaton_multiple(q["k"]))}
         if k == "multiple_enum":
-            B = A.automaton_multiple(q["k"])
-            return {"ok": [[[w] if w else [], e] for w, e in B.enumerate_words(q["n"], with_states=True)]}
+            with U.time_limit(4 * MULT_SECONDS):
+                B = A.automaton_multiple(q["k"])
+                return {"ok": [[[w] if w else [], e] for w, e in B.enumerate_words(q["n"], with_states=True)]}
         if k == "rename":
             return {"ok": U.views(A.rename_generators(dict(map(tuple, q["m"])), inplace=False))}
         if k == "recurrent":
@@ -323,9 +326,14 @@ def run_multiple_oracle(inp):
     for k in inp["ks"]:
         if multiple_pops(ref, starts, k, 300) > 300:
             continue
-        B = A.even_automaton() if k == 2 and inp.get("even") else A.automaton_multiple(k)
-        nb = inp["nmax"] // max(k, 1)
-        got = collections.Counter(B.enumerate_words(nb))
+        try:
+            with U.time_limit(4 * MULT_SECONDS):
+                B = A.even_automaton() if k == 2 and inp.get("even") else A.automaton_multiple(k)
+                nb = inp["nmax"] // max(k, 1)
+                got = collections.Counter(B.enumerate_words(nb))
+        except U.CallTimeout:
+            bad.append(["multiple-did-not-return", k, "reference loop needs <= 300 pops and <= 3^6 words"])
+            break
         want = collections.Counter("".join(w) for n in range(0, nb * k + 1, max(k, 1)) for w, _ in ref.lang(starts[0], n))
         if k >= 1 and (got != want or any(c > 1 for c in got.values())):
             bad.append(["multiple-language", k, sorted(got.elements())[:8], sorted(want.elements())[:8]])
@@ -482,9 +490,6 @@ def run_rlp_oracle(inp):
                     par[h].add(t)
                 if any(len(par[w]) != 1 for w in dist if w != r0) or par.get(r0):
                     bad.append(["rlp-noties-not-a-spanning-tree", root])
-                # all parallel labels of a kept tree edge are kept
-                if any((t, l2, h) not in kept for t, l, h in kept for (t2, l2, h2) in ref.E if t2 == t and h2 == h):
-                    bad.append(["rlp-noties-dropped-parallel-label", root])
         if U.canon(U.views(A)) != U.canon(before):
             bad.append(["original-changed", root])
         if bad:
